@@ -97,6 +97,10 @@ func (p *gPayload) ComposeFrom(events []*el.Event) (el.EventType, interface{}, e
 	h.composeLog = append(h.composeLog, seqs)
 	h.kept = append(h.kept, events)
 	if h.composeFail[n] {
+		if n%2 == 0 {
+			// (what the stock payload answers when it is handed events of another Gateable type)
+			return "", nil, fmt.Errorf("injected compose failure #%d: cannot compose these events: %w", n, el.ErrInvalidParameter)
+		}
 		return "", nil, fmt.Errorf("injected compose failure #%d", n)
 	}
 	if h.composeGate[n] {
